@@ -171,10 +171,18 @@ fn meta_case(rng: &mut StdRng, id: String, n: usize, big: bool, out: &mut Vec<Va
         let sort = ["none", "lexi", "alphanum"][if p == 0 { 0 } else { rng.gen_range(0..3) }];
         let text = render(&labels, &asts, &facts, &lay);
         let (t, s2) = (text.clone(), sort.to_string());
+        let prebuild = p % 2 == 1;
         let res = guarded(120, move || {
             let parser = AdfParser::default();
             parser.parse()(&t).expect("harness text must parse");
+            if prebuild {
+                // an ADF is built (and used) from the same parser BEFORE the sort; the one built afterwards must not care
+                let mut early = Adf::from_parser(&parser);
+                let _ = early.grounded();
+                let _ = BdAdf::from_parser(&parser).grounded();
+            }
             sort_parser(&parser, &s2);
+
             let names: Vec<String> = parser.var_container().names().read().unwrap().clone();
             let mut calls = Vec::new();
             let mut adf = Adf::from_parser(&parser);
@@ -190,6 +198,11 @@ fn meta_case(rng: &mut StdRng, id: String, n: usize, big: bool, out: &mut Vec<Va
                 calls.push(json!({"c": "complete", "b": "bio", "r": tvs(&bio.complete().collect::<Vec<_>>())}));
                 calls.push(json!({"c": "stable", "b": "native", "r": tvs(&adf.stable().collect::<Vec<_>>())}));
                 calls.push(json!({"c": "stable", "b": "hybrid", "r": tvs(&hy.stable().collect::<Vec<_>>())}));
+                // the single-formula rewritings (built from the parser's formula order)
+                let bio_rw = BdAdf::from_parser_with_stm_rewrite(&parser);
+                calls.push(json!({"c": "stable", "b": "bio-rew", "r": tvs(&bio_rw.stable_bdd_representation())}));
+                calls.push(json!({"c": "stable", "b": "bio-rew2", "r": tvs(&bio.stable_bdd_representation())}));
+                calls.push(json!({"c": "stable", "b": "native-rew", "r": tvs(&adf.stable_bdd_representation(&bio_rw))}));
                 calls.push(json!({"c": "stable_ng", "b": "native", "r": tvs(&adf.stable_nogood(Heuristic::Simple).collect::<Vec<_>>())}));
                 let (s, r) = crossbeam_channel::unbounded();
                 adf.two_val_nogood_channel(Heuristic::Simple, s);
